@@ -1123,11 +1123,53 @@ fn run_n<const N: usize>(cfg: &HxCfg) -> HxResult {
     res
 }
 
+/// Does the history (replayed from scratch) follow the model at every step? Steps the model does not
+/// enable (e.g. next_id after the allocator went another way) make the answer "no".
+pub fn history_follows_model(cfg: &HxCfg, hist: &[Op]) -> bool {
+    crate::with_n!(cfg.n, N, {
+        let mut g: Sodg<N> = Sodg::empty(cfg.cap);
+        let mut m = Model::new(cfg.cap, cfg.n, cfg.track_returned);
+        for op in hist {
+            let pos = g.verif_snapshot().next_v;
+            if !m.enabled(op, pos) {
+                return false;
+            }
+            let (_, fs) = step(&cfg.labels, &mut g, &mut m, op);
+            if !fs.is_empty() {
+                return false;
+            }
+        }
+        true
+    })
+}
+
 fn record(cfg: &HxCfg, res: &mut HxResult, hist: &[Op], op: Option<Op>, f: Finding) {
     let mut mine = f.tags.contains(&cfg.prop);
     // slot recycling (C06): a GC failure after at least one earlier collection
-    if !mine && cfg.prop == "C06" && (f.kind.starts_with("panic-bind") || f.kind.contains("collection") || f.kind.starts_with("alive-mismatch")) {
-        mine = collections_before_last(cfg, hist) > 0;
+    // C06: a group that was formed but can never be collected, or a bind of two ungrouped vertices
+    // that fails although fewer than 14 groups are alive, whenever it happens; any other GC
+    // failure only after at least one earlier collection (slot recycling)
+    if !mine && cfg.prop == "C06" {
+        if f.kind.contains("late-collection") || f.kind.starts_with("panic-bind") {
+            mine = true;
+        } else if f.kind.contains("collection") || f.kind.starts_with("alive-mismatch") {
+            mine = collections_before_last(cfg, hist) > 0;
+        }
+    }
+    // C08 / C10: "behaves identically under any subsequent sequence of calls". A divergence from
+    // the model in a history that went through a reload (clone) is blamed on the reload (clone) if
+    // the same history WITHOUT those swaps follows the model all the way - a differential oracle.
+    let mut f = f;
+    if !mine && (cfg.prop == "C08" || cfg.prop == "C10") && op.is_some() {
+        let is_swap = |o: &Op| if cfg.prop == "C08" { matches!(o, Op::ReloadSwap) } else { matches!(o, Op::CloneSwap) };
+        if hist.iter().any(is_swap) && !f.kind.starts_with("clone-") && !f.kind.starts_with("reload-") {
+            let stripped: Vec<Op> = hist.iter().copied().filter(|o| !is_swap(o)).collect();
+            if history_follows_model(cfg, &stripped) {
+                mine = true;
+                f.detail = format!("{} - while the same calls without the {} follow the reference model all the way", f.detail, if cfg.prop == "C08" { "save+load" } else { "clone()" });
+                f.kind = format!("continuation-differs-after-{}", if cfg.prop == "C08" { "reload" } else { "clone" });
+            }
+        }
     }
     if mine {
         res.violation_count += 1;
